@@ -18,7 +18,10 @@ RULE = ("Hypothesis-generated scenarios below the region-splitting thresholds (1
         "[1, 5000] (including non-multiples of 256) - every output file must equal the transformed original - or "
         "reflection - per read type / isoform set / left-right-swapped event names, reference-based tables, and for "
         "noise-free inputs the mirrored set of transcript models with their counts. Non-trivial = >= 1 read with a "
-        "left/right-specific event and >= 1 novel model; distinct by scenario hash.")
+        "left/right-specific event and >= 1 novel model; distinct by scenario hash. Stage split_shift: loci above the "
+        "splitting thresholds (pile-ups, plateaus, long sparse genes, gene across a split point; with/without "
+        "annotation, both memory modes) translated by a multiple of 256: every output file must equal the translated "
+        "original; every case is non-trivial.")
 ASSUMPTIONS = ["payload grammar of assignment_events: '<event>:a-b,c-d' intron lists and '<event>:<pos>' for "
                "tss/polyA position events are coordinates, all other integer payloads are offsets",
                "under reflection event payloads and numeric model ids are not compared (representatives are chosen "
@@ -337,6 +340,41 @@ def evaluate(case, ctx):
         shutil.rmtree(d, ignore_errors=True)
 
 
+@st.composite
+def split_scenarios(draw):
+    """Loci above the region-splitting thresholds (templates of C05/C03) translated by a multiple of the 256-bp
+    coverage bin: split points move with the locus, so every output must be the translated original."""
+    rnd = draw(st.randoms(use_true_random=True))
+    src = S.RndSrc(rnd)
+    annotated = draw(st.sampled_from([True, True, False]))
+    tmpl = draw(st.sampled_from(["pileups", "plateau", "long_gene", "straddle"]))
+    if tmpl == "plateau":
+        sc = S.gen_plateau_locus(src, with_annotation=annotated)
+    elif tmpl == "pileups":
+        sc = S.gen_deep_locus(src, with_annotation=annotated, max_reads=500, extra_chrom=False)
+    else:
+        sc = S.gen_long_gene_locus(src, with_annotation=annotated, straddle=tmpl == "straddle")
+    sc["template"] = tmpl
+    sc["opts"] = ["--data_type", draw(st.sampled_from(["nanopore", "pacbio_ccs"])), "--no_gzip", "--threads",
+                  str(draw(st.sampled_from([1, 2])))]
+    if draw(st.booleans()):
+        sc["opts"] += ["--high_memory"]
+    if draw(st.booleans()):
+        sc["opts"] += ["--count_exons"]
+    sc["noise_free"] = True
+    sc["split_locus"] = True
+    sc["transform"] = {"kind": "shift", "k": 256 * draw(st.sampled_from([1, 2, 3, 7, 16, 127, 128, 129, 1000]))}
+    return sc
+
+
+def evaluate_split(case, ctx):
+    evaluate(case, ctx)
+    ctx.cls("template=" + case["template"])
+    # every case of this stage has a locus that is processed in >= 2 regions by construction of the templates
+    ctx.mark_nontrivial(case_hash(case))
+
+
 def stages(tier):
     q = tier == "quick"
-    return [Stage("equivariance", "hyp", evaluate, n=160 if q else 3000, strategy=scenarios)]
+    return [Stage("equivariance", "hyp", evaluate, n=160 if q else 3000, strategy=scenarios),
+            Stage("split_shift", "hyp", evaluate_split, n=32 if q else 500, strategy=split_scenarios)]
